@@ -32,6 +32,10 @@ def classify(c):
         # resolver answers (merged data, keep=True): both originals are renamed to .conflicted and the merged file is
         # created on both sides; the new files are seen as a fresh create/create conflict and the cycle repeats
         return "G4-merged-keep-never-quiesces"
+    if c["property"] == "C06" and kind == "restart-spurious-transfer" and job["cfg"] in ("po", "pci", "pp"):
+        # path-id local side: the remote user renames a file and re-creates the old name while the engine is down; after
+        # the restart (sync loop first) the engine re-uploads bytes the remote already holds (wasted transfer, no loss)
+        return "G10-path-id-rename-recreate-reuploads"
     if c["property"] == "C12":
         allops = [op for _, op in ops]
         if kind == "outside-modified":
